@@ -31,6 +31,7 @@ import sys
 
 sys.path.insert(0, os.path.dirname(os.path.abspath(__file__)))
 import kernels_C06 as KC  # noqa: E402
+import attrs_C06 as AT  # noqa: E402
 
 REPO = os.environ.get("VERIF_REPO", "/repo")
 SRC = os.path.join(REPO, "src", "pyunicorn")
@@ -588,13 +589,18 @@ def main():
     lines.append("def ctorAliases : List CtorAlias := [\n" + ",\n".join(al) + "]\n")
     lines.append("def fieldEdits : List (String × String) := [\n" + ",\n".join(
         f'  ("{c}", "{f}")' for c, f in field_edits) + "]\n")
+    # ---- named link-attribute slots written / read inside value-returning methods (round 4) --
+    attr_tables, attr_gens, value_methods = AT.class_tables(mods, None)
+    lines.append(AT.lean_text(attr_tables))
     lines.append("end Pyunicorn.Generated.StructC06")
     txt = "\n".join(lines) + "\n"
     if not os.path.exists(out_path) or open(out_path).read() != txt:
         open(out_path, "w").write(txt)
     json.dump({"table": table, "all": records, "kernels": kernels, "c_functions": cfuncs,
                "kernel_calls": kcalls, "field_inits": finits, "ctor_aliases": ctor_alias,
-               "field_edits": field_edits, "to_cy_copies": TO_CY_FRESH[0]}, open(os.path.splitext(out_path)[0] + ".json", "w"),
+               "field_edits": field_edits, "to_cy_copies": TO_CY_FRESH[0],
+               "attr_tables": attr_tables, "attr_gens": attr_gens,
+               "value_methods": value_methods}, open(os.path.splitext(out_path)[0] + ".json", "w"),
               indent=1)
     return 0
 
